@@ -245,7 +245,12 @@ impl<'a> BlockFiltersProcess<'a> {
                     );
                 }
             }
-        } else if matched_blocks.is_empty() {
+        } else if matched_blocks.is_empty()
+            // The matched blocks in memory could be empty while there are still records in the
+            // storage which are not recovered yet (after a restart, or `set_scripts` with an
+            // empty list): those blocks are not indexed, the scripts are not filtered beyond them.
+            && self.filter.storage.get_earliest_matched_blocks().is_none()
+        {
             self.filter
                 .storage
                 .update_block_number(filtered_block_number)
